@@ -115,7 +115,51 @@ def c10_walk_conformance():
                   "bound": "token trees over {~ @ a 1 +}, <= 2 tokens per level, groups () [] {} nested to depth 2, all adjacent pairs; 22 hand-written expressions", "exhaustive_within_bound": True}
 
 
+META = {
+    "c13": ("get_data_type_attrs / get_member_attrs (attribute front-ends)", "an instruction written #[i(a)], #[o2o(i(a))] or grouped in one #[o2o(..)] list gives the same expansion / the same diagnostics",
+            "24 trait instructions + ghosts/where_clause/child_parents x 11 companions x {separate, grouped, both orders}; 19 member instructions x 5 type heads x {bare, wrapped, pairs grouped}; 8 variant instructions x 3 heads"),
+    "c12": ("end to end (front-end, validate, block builders included)", "a shortcut instruction gives the same impl items as the basic instructions it abbreviates, at type and member level",
+            "12 shortcuts x 4 type shapes; x 4 member argument forms x 2 heads; ghost / ghosts"),
+    "c06": ("end to end (struct_init_block call sites included)", "every impl item of the input projected to counterpart A occurs unchanged in the joint expansion",
+            "8 hand-written joint/projected pairs (member maps, ghost, ghosts with child path, child_parents, where_clause, enum ghosts, literal/pattern, parents, type_hint)"),
+}
+
+
+def metamorphic(suite, prop):
+    """BOUNDED metamorphic stand-in (testing, not proof) on the real derive, for functions outside the verifier's reach"""
+    import json
+    import os
+    import subprocess
+    verif = os.path.dirname(os.path.dirname(os.path.abspath(__file__)))
+    recs, err = replay_inputs([])
+    exe = os.path.join(verif, "build", "replay-target", "release", "metamorphic")
+    target, claim, bound = META[suite]
+    if recs is None or not os.path.exists(exe):
+        return [], {"kind": "bounded metamorphic stand-in", "skipped": err or "binary missing"}
+    p = subprocess.run([exe, suite], capture_output=True, text=True, timeout=600)
+    lines = p.stdout.strip().split("\n")
+    head = json.loads(lines[0]) if lines and lines[0].startswith("{") else {"cases": 0, "failures": -1}
+    fails = [l.split("\t") for l in lines[1:] if l.startswith("FAIL\t")]
+    viol = []
+    if head["failures"] != 0:
+        ex = fails[0] if fails else ["", "?", "?", "?"]
+        viol.append({"obligation": "metamorphic[%s]" % suite, "fn": None, "props": [prop],
+                     "message": "%d of %d input pairs that must expand identically do not (%s)" % (head["failures"], head["cases"], target),
+                     "failing_input": {"engine": "native replay of the real derive", "input_a": ex[1], "input_b": ex[2], "difference": ex[3][:1500], "more": [f[1] for f in fails[1:10]]},
+                     "rendered": "\n".join(lines[:11])[:4000], "where": [], "unit": "replay"})
+    return viol, {"kind": "bounded metamorphic stand-in (testing, not proof)", "covers": target, "claim": claim, "bound": bound, "cases": head["cases"], "failures": head["failures"]}
+
+
 def run(prop, tier):
+    if prop in ("C13", "C04"):
+        v, rep = metamorphic("c13", prop)
+        return {"violations": v, "report": {"front_end_spellings": rep}}
+    if prop == "C12":
+        v, rep = metamorphic("c12", prop)
+        return {"violations": v, "report": {"shortcuts_end_to_end": rep}}
+    if prop == "C06":
+        v, rep = metamorphic("c06", prop)
+        return {"violations": v, "report": {"projection_end_to_end": rep}}
     if prop == "C10":
         v, rep = c10_walk_conformance()
         return {"violations": v, "report": {"walk_conformance": rep}}
